@@ -353,3 +353,14 @@ Example ex_renumber :
   map (renum_fun skey 0 [Atom 7; Atom 0; Atom 3; Atom 7]) [Atom 7; Atom 0; Atom 3; Atom 7]
   = [Atom 3; Atom 0; Atom 2; Atom 3].
 Proof. vm_compute. reflexivity. Qed.
+
+(* the guard of C12_views_after_add is needed: overwriting the concept column
+   (not an addition of a column) leaves the indexes of the old concepts behind *)
+Example ex_override_concept_breaks_invariant :
+  exists w w', exW = Some w /\ add_entries w "concept" "concept" (fun _ => Atom 1099) true = Some w' /\ ~ wf exK w'.
+Proof.
+  destruct exW as [w|] eqn:E; [|vm_compute in E; discriminate].
+  vm_compute in E. inversion E. subst w. clear E.
+  eexists. eexists. split; [reflexivity|]. split; [vm_compute; reflexivity|].
+  intros [H _ _ _ _]. vm_compute in H. discriminate.
+Qed.
